@@ -948,7 +948,8 @@ def c17_misc(rep):
                     break
     # make_silence(d) = round(d*rate) zero samples, on / between sample instants
     for sr, sw, ch in itertools.product((8, 10, 16000), (1, 2, 4), (1, 2, 3)):
-        durs = [0, 1 / sr, 2 / sr, 2.5 / sr, 3.5 / sr, 0.3, 0.25, 1.0, 0.0004, 7 / sr + 0.4 / sr, 7 / sr + 0.6 / sr]
+        durs = [0, 1 / sr, 2 / sr, 2.5 / sr, 3.5 / sr, 0.3, 0.25, 1.0, 0.0004, 7 / sr + 0.4 / sr, 7 / sr + 0.6 / sr,
+                0.75 / sr, 0.6 / sr, 0.4 / sr, 0.26 / sr, 1.4 / sr, 1.6 / sr]  # below / around one and two samples
         for d in durs:
             rep.add("evaluations")
             q = Fraction(d) * sr
